@@ -192,6 +192,9 @@ pub fn trim_last(path: &PathBuf) -> (r: PathBuf)
 pub fn ok_or_parent<'a>(o: Option<&'a PathBuf>, p: &PathBuf) -> (r: Result<&'a PathBuf, RvError>)
     ensures o is Some ==> r is Ok && same_path(r->Ok_0, o->Some_0), o is None ==> r is Err && r->Err_0.kind == ErrKind::ParentNotFound
 { match o { Some(s) => Ok(s), None => Err(PathError::parent_not_found(p).into()) } }
+// ASSUMED[is-empty-contract]: path::is_empty (proved in unit path_clean)
+#[verifier::external_body]
+pub fn is_empty(path: &PathBuf) -> (b: bool) ensures b == (path.comps().len() == 0) { unimplemented!() }
 //@ item dir file=src/sys/fs/path.rs fn=dir props=C15,C05,C12,C01,C03,C09
 //@ rw R4 * ⟦path.parent().ok_or_else(|| PathError::parent_not_found(path))?⟧ => ⟦ok_or_parent(path.parent(), path)?⟧
 pub fn dir(path: &PathBuf) -> (r: RvResult<PathBuf>)
